@@ -116,6 +116,31 @@ class SymInt:
     def __neg__(self): return SymInt(-self.z)
     def __pos__(self): return self
     def __abs__(self): return SymInt(z3.If(self.z >= 0, self.z, -self.z))
+    # bit operations with a concrete operand, exact for Python's unbounded two's-complement ints: bit b of x = (x div 2^b) mod 2 (floor division)
+    def _and_const(self, c):
+        if c < 0: return self.z - self._and_const(-c - 1)            # x & c == x - (x & ~c)
+        if c == 0: return z3.IntVal(0)
+        if (c + 1) & c == 0: return self.z % z3.IntVal(c + 1)         # low-bit mask
+        return z3.Sum([((self.z / z3.IntVal(1 << b)) % 2) * (1 << b) for b in range(c.bit_length()) if (c >> b) & 1])
+    def __and__(self, o):
+        if isinstance(o, int) and not isinstance(o, bool): return SymInt(self._and_const(o))
+        return NotImplemented
+    __rand__ = __and__
+    def __or__(self, o):
+        if isinstance(o, int) and not isinstance(o, bool): return SymInt(self.z + o - self._and_const(o))
+        return NotImplemented
+    __ror__ = __or__
+    def __xor__(self, o):
+        if isinstance(o, int) and not isinstance(o, bool): return SymInt(self.z + o - 2 * self._and_const(o))
+        return NotImplemented
+    __rxor__ = __xor__
+    def __invert__(self): return SymInt(-self.z - 1)
+    def __rshift__(self, o):
+        if isinstance(o, int) and o >= 0: return SymInt(self.z / z3.IntVal(1 << o))
+        return NotImplemented
+    def __lshift__(self, o):
+        if isinstance(o, int) and o >= 0: return SymInt(self.z * (1 << o))
+        return NotImplemented
     def __index__(self): return _CUR.concretize(self)
     def __int__(self): return self
     def _c(self, o, f, inf_result):
